@@ -141,6 +141,19 @@ def inject(rng, cls, ds, cfg, defect):
             return None
         return ("construct", lambda: build(cls, ds, cfg, sort_by="gini"))
     if defect == "refit":
+        if rng.random() < 0.6:
+            # the second fit is given another (valid) frame: missing values where there were none, shifted numbers
+            X2 = ds["X"].copy(deep=True)
+            for f in ds["qualitative"] + ds["ordinal"]:
+                col = X2[f].astype(object).tolist()
+                for i in rng.sample(range(len(col)), max(1, len(col) // 6)):
+                    col[i] = None
+                X2[f] = pd.Series(col, dtype=object, index=X2.index)
+            for f in ds["quantitative"]:
+                if str(X2[f].dtype).startswith("float"):
+                    X2[f] = X2[f] * 2 + 1
+                    X2.loc[X2.index[::7], f] = np.nan
+            return lambda obj: fit(obj, ds, X=X2)
         return lambda obj: fit(obj, ds)
     return None
 
